@@ -69,7 +69,34 @@ pub async fn make_socket(ctx: &Context, cfg: &HashMap<String, String>) -> Result
           s.set_option_raw(o::PLAIN_PASSWORD, &parse_bytes(v)).await?;
         }
       }
-      "sec" | "curve" | "noise" => {}
+      "sec" => {}
+      "curve" => {
+        if v == "1" {
+          let server = cfg.get("role").map(|r| r == "s").unwrap_or(false);
+          // fixed, well-formed key material: these scenarios are about what an UNAUTHENTICATED peer can achieve
+          let sk: Vec<u8> = (1..=32u8).collect();
+          let peer_pk: Vec<u8> = (101..=132u8).collect();
+          if server {
+            set_i32(&s, o::CURVE_SERVER, 1).await?;
+            s.set_option_raw(o::CURVE_SECRET_KEY, &sk).await?;
+          } else {
+            s.set_option_raw(o::CURVE_SECRET_KEY, &sk).await?;
+            s.set_option_raw(o::CURVE_SERVER_KEY, &peer_pk).await?;
+          }
+        }
+      }
+      "noise" => {
+        if v == "1" {
+          let server = cfg.get("role").map(|r| r == "s").unwrap_or(false);
+          let sk: Vec<u8> = (33..=64u8).collect();
+          let peer_pk: Vec<u8> = (133..=164u8).collect();
+          s.set_option_raw(o::NOISE_XX_STATIC_SECRET_KEY, &sk).await?;
+          if !server {
+            s.set_option_raw(o::NOISE_XX_REMOTE_STATIC_PUBLIC_KEY, &peer_pk).await?;
+          }
+          set_i32(&s, o::NOISE_XX_ENABLED, 1).await?;
+        }
+      }
       "zmtp2" => set_i32(&s, o::ALLOW_ZMTP2, v.parse().unwrap()).await?,
       "hbivl" => {
         if v != "none" {
